@@ -71,5 +71,9 @@ CHECKS = {
     text='Each case runs the real run_feedforward_filter under the event recorder (arrays kept) and compares every result field (compensated trajectory, trajectory_sd, sensor estimates and sd, normalised innovations) with an independent one-shot Gauss-Markov solution of the linear system the oracle assembles itself from public pieces only (own mid-point pva cross-checked against the recorded linearisation point, public system_matrices / EstimationModel attributes, own joint assembly, own textbook Van Loan, own initial covariance); agreement demanded to 1e-5 of the reported sd.',
     ref='2/C11', technique='runtime comparison with an independent non-recursive reference estimator',
     note='Cases with innovation-covariance cond > 1e10 are not decided; measurement rows attached to the grid row at or before their epoch (the filter\'s own linearisation).'),
+ 'C12': dict(
+    text='(a) real run_feedback_filter on seeded schedules with no sample inside [start, end) (outside samples, empty streams, None / []): trajectory compared BIT FOR BIT with plain Integrator.integrate, event log must show no correct / update_estimates; (b) both real filters on the same data at error scale s and s/10 (s in [0.3, 3] s0): disagreement in units of the reported sd must shrink in proportion, d(s/10) <= 0.25 d(s) + 0.05, sd ratio likewise; (c) both filters run twice with the same model objects, results bit-identical.',
+    ref='2/C12', technique='bitwise differential run + error-scale ladder between the two real filters + determinism replay',
+    note='F = 0.05 sd is an absolute allowance for the scale-independent first-order remainder of the linear model in this workload domain (time_step <= 0.5 s, IMU 12.5 ms, horizon <= 40 s); one decade step per configuration because 10 s0 saturates and s0/100 reaches the unscaled truncation floor.'),
 }
 PENDING = {}
